@@ -40,8 +40,8 @@ def setup(tier):
 
 def budget(tier):
     if tier == "quick":
-        return {"cases": 24000, "workers": 8, "watchdog_s": 900}
-    return {"cases": 600000, "workers": 16, "watchdog_s": 3600}
+        return {"cases": 200000, "workers": 8, "watchdog_s": 1800}
+    return {"cases": 8000000, "workers": 16, "watchdog_s": 3600, "budget_s": 600}
 
 
 def gen_rows(rng, cols, n):
